@@ -491,13 +491,24 @@ type nodeCase struct {
 	ID  int    `json:"id"`
 	T0  uint64 `json:"t0"`
 	Ops []opT  `json:"ops"`
+	// views requested from the node with GenerateReadStat(sampleCount, interval): ops gvok / gvsum /
+	// gvprev refer to them by index (monitor only; the Coq node has its one default view)
+	GViews [][2]int `json:"generated_views,omitempty"`
 }
+
+// gviewAlphabet: (sampleCount, interval) pairs asked of a node - among them the default INTERVAL with
+// other sample counts (valid and not), and the default pair itself
+var gviewAlphabet = [][2]int{{1, 1000}, {2, 1000}, {4, 1000}, {3, 1000}, {1, 500}, {1, 2000}, {2, 2000}, {4, 2000}, {5, 5000}, {10, 5000},
+	{20, 10000}, {10, 10000}, {1, 10000}, {3, 10000}, {2, 3000}, {0, 1000}, {2, 0}, {1, 20000}}
 
 func genNode(r *rng.R, id int) nodeCase {
 	c := nodeCase{ID: id}
 	c.T0 = 1700000000000 + uint64(r.Range(0, 30000))
 	t := c.T0
 	n := 15 + r.Intn(50)
+	for k := 2 + r.Intn(3); k > 0; k-- {
+		c.GViews = append(c.GViews, gviewAlphabet[r.Intn(len(gviewAlphabet))])
+	}
 	for i := 0; i < n; i++ {
 		switch x := r.Intn(20); {
 		case x < 7:
@@ -515,7 +526,13 @@ func genNode(r *rng.R, id int) nodeCase {
 			t = t - t%500 + 499
 		}
 		o := opT{T: t}
-		switch x := r.Intn(22); {
+		switch x := r.Intn(26); {
+		case x >= 25:
+			o.K, o.V = "gvok", r.Intn(len(c.GViews))
+		case x >= 24:
+			o.K, o.V, o.Ev = "gvsum", r.Intn(len(c.GViews)), r.Intn(5)
+		case x >= 22:
+			o.K, o.V, o.Ev = "gvprev", r.Intn(len(c.GViews)), r.Intn(5)
 		case x < 7:
 			o.K, o.Ev, o.C = "add", r.Intn(5), r.PickI(1, 1, 2, 3, 7, 50)
 		case x < 9:
@@ -538,7 +555,7 @@ func genNode(r *rng.R, id int) nodeCase {
 			o.K, o.Ev = "maxavg", r.Intn(5)
 		case x < 20:
 			o.K = "cur"
-		default:
+		case x < 22:
 			o.K = "items"
 			if r.Bool() {
 				o.Lo, o.Hi = 0, math.MaxInt64
@@ -555,6 +572,12 @@ func genNode(r *rng.R, id int) nodeCase {
 func runNode(c nodeCase, clk *vclock.Clock) (res []resT) {
 	clk.SetMs(c.T0)
 	n := stat.NewResourceNode("c08-"+strconv.Itoa(c.ID), base.ResTypeCommon)
+	gv := make([]base.ReadStat, len(c.GViews))
+	for i, v := range c.GViews {
+		if m, err := n.GenerateReadStat(uint32(v[0]), uint32(v[1])); err == nil && m != nil {
+			gv[i] = m
+		}
+	}
 	for _, o := range c.Ops {
 		clk.SetMs(o.T)
 		ev := base.MetricEvent(o.Ev)
@@ -584,6 +607,24 @@ func runNode(c nodeCase, clk *vclock.Clock) (res []resT) {
 			res = append(res, resT{Kind: "f", F: n.GetMaxAvg(ev)})
 		case "cur":
 			res = append(res, resT{Kind: "z", Z: int64(n.CurrentConcurrency())})
+		case "gvok":
+			z := int64(0)
+			if gv[o.V] != nil {
+				z = 1
+			}
+			res = append(res, resT{Kind: "z", Z: z})
+		case "gvsum":
+			if gv[o.V] == nil {
+				res = append(res, resT{Kind: "none"})
+			} else {
+				res = append(res, resT{Kind: "z", Z: gv[o.V].GetSum(ev)})
+			}
+		case "gvprev":
+			if gv[o.V] == nil {
+				res = append(res, resT{Kind: "none"})
+			} else {
+				res = append(res, resT{Kind: "f", F: gv[o.V].GetPreviousQPS(ev)})
+			}
 		case "items":
 			lo, hi := o.Lo, o.Hi
 			items := n.MetricsOnCondition(func(ws uint64) bool { return ws >= lo && ws <= hi })
@@ -656,6 +697,33 @@ func monitorNode(c nodeCase, res []resT, gn, gitv, vn, vitv int64, rep *emit.Rep
 			chkF(float64(m) * float64(vn) / float64(vitv) * 1000.0)
 		case "cur":
 			chkZ(conc)
+		case "gvok", "gvsum", "gvprev":
+			// a requested view exists iff it tiles the node's array (own statement of the reuse rule)
+			v := c.GViews[o.V]
+			sc, it := int64(v[0]), int64(v[1])
+			valid := sc > 0 && it > 0 && it%sc == 0 && gitv%it == 0 && (it/sc)%bl == 0
+			switch {
+			case o.K == "gvok":
+				want := int64(0)
+				if valid {
+					want = 1
+				}
+				if res[i].Z != want {
+					fail("C08_view_tiles", "view-validity-verdict-differs", fmt.Sprintf("op %d: GenerateReadStat(%d, %d) on a %dx%d ms array: constructible=%d, tiles=%v", i, sc, it, gn, bl, res[i].Z, valid))
+				}
+			case !valid:
+				if res[i].Kind != "none" {
+					fail("C08_view_tiles", "view-validity-verdict-differs", fmt.Sprintf("op %d: a view (%d, %d) that does not tile was constructed and read", i, sc, it))
+				}
+			case res[i].Kind == "none":
+				fail("C08_view_tiles", "view-validity-verdict-differs", fmt.Sprintf("op %d: the tiling view (%d, %d) was refused", i, sc, it))
+			case o.K == "gvsum":
+				chkZ(winSum(h, o.Ev, hi-it, hi))
+			case it+it/sc <= gitv: // previous-window reads: views shorter than the array by one view bucket
+				p := now - it/sc
+				phi := p - p%bl + bl
+				chkF(float64(winSum(h, o.Ev, phi-it, phi)) / (float64(it) / 1000.0))
+			}
 		case "items":
 			got := map[int64][]int64{}
 			for _, row := range res[i].Items {
@@ -714,9 +782,14 @@ func monitorNode(c nodeCase, res []resT, gn, gitv, vn, vitv int64, rep *emit.Rep
 	}
 }
 
-func coqNode(c nodeCase, res []resT, gn, gitv, vn, vitv int64) string {
+func coqNode(c nodeCase, resAll []resT, gn, gitv, vn, vitv int64) string {
 	var ops []string
-	for _, o := range c.Ops {
+	var res []resT
+	for i, o := range c.Ops {
+		if strings.HasPrefix(o.K, "gv") {
+			continue // generated views: monitor only
+		}
+		res = append(res, resAll[i])
 		t := emit.U(o.T)
 		switch o.K {
 		case "add":
@@ -757,7 +830,7 @@ func main() {
 	clk.Install()
 	root := rng.New(a.Seed)
 	rep := emit.NewReport("C08", a.Seed, a.Tier)
-	rep.Rule = "array cases: geometry from a table of 14 (sampleCount, interval) pairs, creation time near zero / aligned / end of cycle / arbitrary, 2-4 views (valid tilings + one arbitrary candidate that must be accepted iff it tiles), 10-59 timed ops (AddCount of 5 event kinds, UpdateConcurrency, Count/MinRt/MaxConcurrency/Values of the array, GetSum/GetQPS/GetPreviousQPS/MinRT/MaxConcurrency/GetMaxOfSingleBucket/AvgRT of a view, SecondMetricsOnCondition) with time steps: same ms, inside bucket, exactly on bucket / cycle boundary, last ms of a bucket, exactly one interval, idle gaps longer than the array; node cases: BaseStatNode with the configured global geometry. Non-trivial = the history crosses at least one bucket boundary between a write and a later read; distinct by full input."
+	rep.Rule = "array cases: geometry from a table of 14 (sampleCount, interval) pairs, creation time near zero / aligned / end of cycle / arbitrary, 2-4 views (valid tilings + one arbitrary candidate that must be accepted iff it tiles), 10-59 timed ops (AddCount of 5 event kinds, UpdateConcurrency, Count/MinRt/MaxConcurrency/Values of the array, GetSum/GetQPS/GetPreviousQPS/MinRT/MaxConcurrency/GetMaxOfSingleBucket/AvgRT of a view, SecondMetricsOnCondition) with time steps: same ms, inside bucket, exactly on bucket / cycle boundary, last ms of a bucket, exactly one interval, idle gaps longer than the array; node cases: BaseStatNode with the configured global geometry, plus 2-4 views requested with GenerateReadStat from an alphabet of 18 (sampleCount, interval) pairs (the default interval with other sample counts, non-tiling and zero parameters included): validity verdict, sum and previous-window QPS against the reference (monitor only). Non-trivial = the history crosses at least one bucket boundary between a write and a later read; distinct by full input."
 	nArr := a.Pick(a.N, 260, 4000)
 	nNode := a.Pick(a.N, 90, 1500)
 	nArrMon := a.Pick(a.Mon, 6000, 120000)
